@@ -274,7 +274,7 @@ def run_check(prop, tier, seed, replay=None):
             # monitors on the implementation's answers
             reasons = [""] * len(cases)
             if g.monitor:
-                mon_lines = ["mon\t" + c + "\t##\t" + a for c, a in zip(cases, impl)]
+                mon_lines = ["mon\t" + pid + "\t" + c + "\t##\t" + a for c, a in zip(cases, impl)]
                 mon = run_lines(bins.driver, mon_lines)
                 reasons = ["" if m == "ok" else m for m in mon]
             diffs, bads = [], []
@@ -387,7 +387,7 @@ def match_known(prop, case, impl, reason):
 def eval_cases(prop, bins, cases):
     impl = run_lines(bins.harness, cases, workers=4)
     model = run_lines(bins.driver, cases, workers=4)
-    mon = run_lines(bins.driver, ["mon\t" + c + "\t##\t" + a for c, a in zip(cases, impl)], workers=4)
+    mon = run_lines(bins.driver, ["mon\t" + prop.ID + "\t" + c + "\t##\t" + a for c, a in zip(cases, impl)], workers=4)
     return impl, model, mon
 
 
